@@ -10,7 +10,7 @@ PROPERTIES = {
         not_reached=[],
     ),
     "C02": dict(
-        modules=["sample_checking"],
+        modules=["sample_checking", "requirements", "scenarios"],
         level="proof",
         claim="the checker accepts a sample only if every active mandatory requirement holds, for every order/subset the history-dependent sorting can choose (sort modelled as an arbitrary permutation); default requirement set and requirement predicates as postconditions",
         note="geometric predicates abstract (C04/C17); falsifiedBy assumed pure in the sample",
